@@ -1,0 +1,25 @@
+"""Verification hooks (add-only).
+
+``emit(event, **refs)`` is a no-op unless the environment variable TEMPEST_VERIF=1 is set *and* a sink
+has been registered by an external harness.  Hooks pass references to live objects; all projection
+logic lives in the harness.  With the guard off nothing here has any effect on the library.
+"""
+import os
+
+_ON = os.environ.get("TEMPEST_VERIF") == "1"
+_sink = None
+
+
+def set_sink(fn):
+    """Register (or clear, with None) the callable receiving ``(event, refs)``."""
+    global _sink
+    _sink = fn
+
+
+def enabled():
+    return _ON and _sink is not None
+
+
+def emit(event, **refs):
+    if _ON and _sink is not None:
+        _sink(event, refs)
